@@ -862,6 +862,8 @@ class Message:
         self.encrypted_payloads = encrypted_payloads
         self.crypto = crypto
         self.iv = iv
+        # set by parse() once the checksum of the Encrypted payload has been verified
+        self.is_protected = False
         if self.crypto is not None and self.iv is None:
             self.iv = self.crypto.cipher.generate_iv()
 
@@ -945,6 +947,7 @@ class Message:
                 # parse decrypted payloads and remove Payload SK
                 message.iv, decrypted_data = payload_sk.decrypt(crypto)
                 message.encrypted_payloads = cls._parse_payloads(decrypted_data, payload_sk.next_payload_type)
+                message.is_protected = True
 
         return message
 
